@@ -239,11 +239,11 @@ Fixpoint blocks_asc (bs : list (Z * Z)) : Prop :=
   | [] => True
   | b :: t => fst b < snd b /\ match t with [] => True | b2 :: _ => snd b <= fst b2 end /\ blocks_asc t
   end.
-(* exons strictly ascending with introns of at least one base *)
+(* exons ascending and non-empty; introns may have length zero (abutting exons are allowed) *)
 Fixpoint exons_asc (exs : list (Z * Z)) : Prop :=
   match exs with
   | [] => True
-  | x :: t => fst x < snd x /\ match t with [] => True | y :: _ => snd x < fst y end /\ exons_asc t
+  | x :: t => fst x < snd x /\ match t with [] => True | y :: _ => snd x <= fst y end /\ exons_asc t
   end.
 (* the exons in transcript order *)
 Definition tx_exons (a : canno) : list (Z * Z) :=
